@@ -275,6 +275,9 @@ where
                 let n = evs.len();
                 for e in evs {
                     if let IpcSelectionResult::MessageReceived(_, m) = e {
+                        // a receiver that logs what it could not decode: formatting the raw message must not panic either
+                        let shown = format!("{:?}", m);
+                        drop(shown);
                         drop(m);
                     }
                 }
